@@ -229,6 +229,30 @@ def bootstrap_final_state(cwd, exitcode=0):
     return (m.group(1), m.group(2))
 
 
+def bootstrap_tail_exit(cwd, agent_exit, kill=False):
+    """run the real end of bootstrap_0.sh (from `# collect process and exit code` to its final
+    `exit`) in `cwd` with a stand-in agent process which exits with `agent_exit` (or is killed);
+    returns the bootstrapper's exit status, or None if the tail is not found"""
+    path = os.path.join(os.path.dirname(rp_agent_0.__file__), 'bootstrap_0.sh')
+    try:
+        with open(path) as f:
+            lines = f.read().split('\n')
+    except OSError:
+        return None
+    starts = [i for i, l in enumerate(lines) if re.match(r'\s*# collect process and exit code', l)]
+    if not starts:
+        return None
+    tail = '\n'.join(lines[starts[-1]:])
+    agent = '( sleep 30 ) &\nAGENT_PID=$!\nkill -9 $AGENT_PID\n' if kill else \
+            '( exit %d ) &\nAGENT_PID=$!\nsleep 0.05\n' % int(agent_exit)
+    script = ('profile_event(){ :; }\nlast_event(){ :; }\ncontains(){ return 1; }\n'
+              'CLEANUP=""\nPILOT_SANDBOX="$PWD"\nVIRTENV="$PWD/ve"\n'
+              'PROFILES_TARBALL=p.tgz\nLOGFILES_TARBALL=l.tgz\n' + agent + tail + '\n')
+    pr = subprocess.run(['/bin/bash', '-c', script], cwd=cwd, text=True,
+                        stdout=subprocess.PIPE, stderr=subprocess.STDOUT, timeout=60)
+    return pr.returncode
+
+
 # ------------------------------------------------------------------------------
 # BaseComponent.stop() logs ru.get_caller_name(), which walks inspect.stack()
 # (6 ms per call, resolves source files): only a log argument -> constant here
